@@ -136,7 +136,7 @@ def _child(spec: dict) -> dict:  # noqa: C901, PLR0915, PLR0912
     log: list[dict] = []
     counts = dict.fromkeys(SITES, 0)
     st = {"state": 0, "injected": None, "finished": False, "popup": False}
-    inject = spec.get("inject")
+    cur = {"inject": spec.get("inject"), "script": spec.get("script", []), "lo": 0, "size": list(spec.get("size", [40, 10]))}
 
     class Boom(Exception):
         pass
@@ -154,6 +154,7 @@ def _child(spec: dict) -> dict:  # noqa: C901, PLR0915, PLR0912
         ev = {"site": site, "k": k, "t": time.monotonic(), "state": st["state"]}
         ev.update(info)
         log.append(ev)
+        inject = cur["inject"]
         if inject and st["injected"] is None and inject["site"] == site and inject["k"] == k:
             st["injected"] = len(log)
             log.append({"site": "inject", "at": site, "k": k, "kind": inject["kind"]})
@@ -333,15 +334,20 @@ def _child(spec: dict) -> dict:  # noqa: C901, PLR0915, PLR0912
 
         return cb
 
-    t_set = time.monotonic()
-    for n, delay in enumerate(spec.get("alarms", [0.09, 0.17])):
-        loop.set_alarm_in(delay, mk_alarm(n, t_set + delay))
+    alarm_handles: list = []
 
     def backstop(_loop, _data):
         log.append({"site": "final_exit", "via": "backstop"})
         raise urwid.ExitMainLoop()
 
-    loop.set_alarm_in(spec.get("backstop", 2.5), backstop)
+    def set_alarms(delays) -> float:
+        t0 = time.monotonic()
+        for n, delay in enumerate(delays):
+            alarm_handles.append(loop.set_alarm_in(delay, mk_alarm(n, t0 + delay)))
+        alarm_handles.append(loop.set_alarm_in(spec.get("backstop", 2.5), backstop))
+        return t0
+
+    t_set = set_alarms(spec.get("alarms", [0.09, 0.17]))
 
     pipe_wr = file_rd = file_wr = None
     if hook:
@@ -369,7 +375,6 @@ def _child(spec: dict) -> dict:  # noqa: C901, PLR0915, PLR0912
 
     # ---- reader + driver thread on the master side
     seen = bytearray()
-    script = spec.get("script", [])
     STEP_WAIT = spec.get("step_wait", 0.4)
 
     def pump(timeout: float) -> None:
@@ -406,8 +411,9 @@ def _child(spec: dict) -> dict:  # noqa: C901, PLR0915, PLR0912
 
     def driver() -> None:
         # wait for the initial paint
-        wait_for(lambda: seen_after(0, "flush") is not None and seen_after(0, "render") is not None, 3.0)
-        for n, step in enumerate(script):
+        lo = cur["lo"]
+        wait_for(lambda: seen_after(lo, "flush") is not None, 3.0)  # (a re-run may paint from the canvas cache: no render call)
+        for n, step in enumerate(cur["script"]):
             if st["finished"]:
                 break
             i0 = len(log)
@@ -418,6 +424,7 @@ def _child(spec: dict) -> dict:  # noqa: C901, PLR0915, PLR0912
                 wait_for(lambda i0=i0: settled(i0, "filter"), STEP_WAIT)
             elif kind == "winch":
                 c2, r2 = arg
+                cur["size"] = [c2, r2]
                 fcntl.ioctl(slave, termios.TIOCSWINSZ, struct.pack("HHHH", r2, c2, 0, 0))
                 os.kill(os.getpid(), signal.SIGWINCH)
                 wait_for(lambda i0=i0: settled(i0, "filter"), STEP_WAIT)
@@ -428,7 +435,7 @@ def _child(spec: dict) -> dict:  # noqa: C901, PLR0915, PLR0912
                 os.write(file_wr, arg.encode("latin-1"))
                 wait_for(lambda i0=i0: settled(i0, "file"), STEP_WAIT)
             elif kind == "alarm":
-                wait_for(lambda arg=arg: settled(0, "alarm", n=arg), 1.0)
+                wait_for(lambda arg=arg: settled(lo, "alarm", n=arg), 1.0)
             elif kind == "split":
                 # one key in two writes: the second only after the loop has read (and could not complete) the first
                 cw = float(spec.get("complete_wait") or 0.125)
@@ -447,61 +454,106 @@ def _child(spec: dict) -> dict:  # noqa: C901, PLR0915, PLR0912
         while not st["finished"]:
             pump(0.005)
 
-    th = threading.Thread(target=driver, daemon=True)
-
-    # ---- run
-    outcome = {"how": None}
-    th.start()
-    try:
-        loop.run()
-        outcome["how"] = "returned"
-    except BaseException as e:  # noqa: BLE001
-        outcome["how"] = "raised"
-        outcome["exc_type"] = type(e).__name__
-        outcome["exc_repr"] = repr(e)[:300]
-        outcome["same_object"] = bool(inject) and e is faults.get(inject["kind"])
-        outcome["is_exception_subclass"] = isinstance(e, Exception)
-        import traceback
-
-        outcome["tb"] = traceback.format_exc(limit=12)[-1500:]
-    log.append({"site": "run_end", "t": time.monotonic()})
-    n_log_at_end = len(log)
-    st["finished"] = True
-    th.join(3.0)
-    try:
-        tee.flush()
-    except Exception:  # noqa: BLE001
-        pass
-    # drain whatever is still in the pty
-    for _ in range(50):
-        r, _, _ = select.select([master], [], [], 0.02)
-        if not r:
-            break
-        try:
-            seen.extend(os.read(master, 65536))
-        except OSError:
-            break
-
-    tc_after = termios.tcgetattr(slave)
-    sig_after = {n: signal.getsignal(s) for n, s in watched.items()}
-
     def tcj(t):
         return [t[0], t[1], t[2], t[3], t[4], t[5], [c.decode("latin-1") if isinstance(c, bytes) else c for c in t[6]]]
 
+    def one_run(index: int, t0: float) -> dict:
+        """MainLoop.run() once, with its own driver thread; -> what was observed when it ended"""
+        inject = cur["inject"]
+        size0 = list(cur["size"])
+        master_lo = len(seen)
+        st["finished"] = False
+        st["injected"] = None
+        th = threading.Thread(target=driver, daemon=True)
+        outcome = {"how": None}
+        th.start()
+        try:
+            loop.run()
+            outcome["how"] = "returned"
+        except BaseException as e:  # noqa: BLE001
+            outcome["how"] = "raised"
+            outcome["exc_type"] = type(e).__name__
+            outcome["exc_repr"] = repr(e)[:300]
+            outcome["same_object"] = bool(inject) and e is faults.get(inject["kind"])
+            outcome["is_exception_subclass"] = isinstance(e, Exception)
+            import traceback
+
+            outcome["tb"] = traceback.format_exc(limit=12)[-1500:]
+        log.append({"site": "run_end", "t": time.monotonic(), "run": index})
+        hi = len(log)
+        st["finished"] = True
+        th.join(3.0)
+        try:
+            tee.flush()
+        except Exception:  # noqa: BLE001
+            pass
+        # drain whatever is still in the pty
+        for _ in range(50):
+            r, _, _ = select.select([master], [], [], 0.02)
+            if not r:
+                break
+            try:
+                seen.extend(os.read(master, 65536))
+            except OSError:
+                break
+        tc_after = termios.tcgetattr(slave)
+        sig_after = {n: signal.getsignal(s) for n, s in watched.items()}
+        return {
+            "lo": cur["lo"],
+            "hi": hi,
+            "late_events": [e for e in log[hi:] if e["site"] in SITES],
+            "counts": dict(counts),
+            "outcome": outcome,
+            "master_lo": master_lo,
+            "master_hi": len(seen),
+            "termios_after": tcj(tc_after),
+            "termios_equal": tc_before == tc_after,
+            "signals": {n: {"same": sig_after[n] is sig_before[n] or sig_after[n] == sig_before[n], "before": repr(sig_before[n])[:80], "after": repr(sig_after[n])[:80]} for n in watched},
+            "started_after": bool(screen.started),
+            "t_set": t0,
+            "size": size0,
+            "script": cur["script"],
+            "inject": inject,
+        }
+
+    runs = [one_run(0, t_set)]
+    for index, more in enumerate(spec.get("more_runs") or [], 1):
+        # the same MainLoop / event-loop objects are run again
+        try:
+            termios.tcflush(slave, termios.TCIFLUSH)  # scripted input the previous run never read is the harness's, not a user's
+        except termios.error:
+            pass
+        for h in alarm_handles:
+            try:
+                loop.remove_alarm(h)
+            except Exception as e:  # noqa: BLE001
+                log.append({"site": "remove_alarm_error", "err": f"{type(e).__name__}: {e}"[:200]})
+        del alarm_handles[:]
+        for k in counts:
+            counts[k] = 0
+        cur.update(inject=more.get("inject"), script=more.get("script", []), lo=len(log))
+        log.append({"site": "run_start", "run": index, "t": time.monotonic()})
+        t0 = set_alarms(more.get("alarms", [0.07]))
+        runs.append(one_run(index, t0))
+
+    first = runs[0]
+    n_log_at_end = runs[-1]["hi"]
+    outcome = first["outcome"]
     return {
         "spec": spec,
         "log": log[:n_log_at_end],
-        "late_events": [e for e in log[n_log_at_end:] if e["site"] in SITES],
-        "counts": counts,
+        "late_events": runs[-1]["late_events"],
+        "counts": first["counts"],
         "outcome": outcome,
         "master": bytes(seen).decode("latin-1"),
         "termios_before": tcj(tc_before),
-        "termios_after": tcj(tc_after),
-        "termios_equal": tc_before == tc_after,
-        "signals": {n: {"same": sig_after[n] is sig_before[n] or sig_after[n] == sig_before[n], "before": repr(sig_before[n])[:80], "after": repr(sig_after[n])[:80]} for n in watched},
+        "termios_after": first["termios_after"],
+        "termios_equal": first["termios_equal"],
+        "signals": first["signals"],
         "custom_handler_calls": custom_calls,
-        "started_after": bool(screen.started),
+        "started_after": first["started_after"],
         "t_set": t_set,
+        "runs": runs,
         "reach": reach_counts() if reach_counts else {},
     }
 
